@@ -1194,6 +1194,14 @@ MUTANTS = [
                 'Fail(error, nerror, "XML root element not found");')]},
 ]
 
+# the proposed repair of the reported leak: with it, exactly the two R-CATCH reports disappear
+MUTANTS.append({
+    "id": "fix-catch-mjCError", "group": "D", "expect": None, "fixes": [("R-CATCH", ":mjCError")],
+    "edits": [(_XML, "    return nullptr;\n  }\n\n  return spec;\n}",
+               "    return nullptr;\n  }\n\n  // errors raised by the spec/compiler layer while the document is built\n"
+               "  catch (mjCError err) {\n    mjCopyError(error, err.message, nerror);\n    mj_deleteSpec(spec);\n"
+               "    return nullptr;\n  }\n\n  return spec;\n}")]})
+
 
 def selftest(res):
     cxx3.run_mutants("C37", res, MUTANTS)
